@@ -19,6 +19,18 @@ EXTENDS MPDefs
 NSlots == 9
 CritOrderCanon == <<"maxsize", "minsize", "gen", "gre", "mincost", "minsqcost", "lmb", "lsb", "mincostlsb">>
 
+(* Both documented spellings of every solver option (README, solver section): *)
+(* refusal and order do not depend on which spelling the caller uses.         *)
+SolverShort == [f |-> "-f", na |-> "-na", twopl |-> "-twopl", pc |-> "-pc", stab |-> "-stab", bf |-> "-bf",
+                maxsize |-> "-maxsize", minsize |-> "-minsize", gen |-> "-gen", gre |-> "-gre", mincost |-> "-mincost",
+                minsqcost |-> "-minsqcost", mincostlsb |-> "-mincostlsb", lmb |-> "-lmb", lsb |-> "-lsb"]
+SolverLong  == [f |-> "-filename", na |-> "-numagents", twopl |-> "-twosidedpreferencelists", pc |-> "-projectclosures",
+                stab |-> "-stability", bf |-> "-bruteforce",
+                maxsize |-> "-maximisesize", minsize |-> "-minimisesize", gen |-> "-generous", gre |-> "-greedy",
+                mincost |-> "-minimisecost", minsqcost |-> "-minimisesquaredcost",
+                mincostlsb |-> "-minimisecostloadsumbalanced", lmb |-> "-loadmaxbalanced", lsb |-> "-loadsumbalanced"]
+SolverOptName(o, long) == IF long THEN SolverLong[o] ELSE SolverShort[o]
+
 (* --------------------------- Defs ------------------------------------- *)
 PosInRange(flags)  == \A i \in DOMAIN flags : flags[i].pos >= 1 /\ flags[i].pos <= NSlots
 PosDistinct(flags) == \A i, j \in DOMAIN flags : i # j => flags[i].pos # flags[j].pos
